@@ -181,6 +181,7 @@ type Outcome struct {
 	rets  []Val
 	panic bool
 	desc  string
+	env   map[string]Val // named locals of the top-level frame at the return site
 }
 
 type Exec struct {
@@ -707,7 +708,11 @@ func (x *Exec) execFrom(f *Frame, st *State, b *ssa.BasicBlock, prev *ssa.BasicB
 			for j := len(f.defers) - 1; j >= 0; j-- {
 				f.defers[j](st)
 			}
-			return []*Outcome{{st: st, rets: rets}}
+			var lenv map[string]Val
+			if f.parent == nil {
+				lenv = x.frameEnv(f, st, nil).vars
+			}
+			return []*Outcome{{st: st, rets: rets, env: lenv}}
 		case *ssa.Panic:
 			return []*Outcome{{st: st, panic: true, desc: "panic at " + x.pos(in.Pos())}}
 		case *ssa.Call:
